@@ -1,5 +1,6 @@
 import Driver.Ops.Write
 import Driver.Ops.Read
+import ZipVerif.Model.Interrupted
 /- Ops `fault.*` (C11): the same scenarios with the k-th I/O call failing. -/
 
 namespace Driver
@@ -19,8 +20,17 @@ def parseKind : String → Option IoKind
   | "interrupted" => some .interrupted
   | _ => none
 
+/-- `fault.read`: `ZipArchive::new`, then every entry by index, read to its end by the harness's own `read` loop.
+On a device failing with `Interrupted` the model with std's convention answers: `openArchiveI` (`read_exact` retries, the
+`seek`s do not) and `byIndexReadB` (`find_content` likewise; the consumer is a hand-written `read` loop that does NOT
+retry, so an `Interrupted` failure of its read is the entry's error).  On every other kind these ARE `openArchive` /
+`byIndexRead` (`Props/C11.open_hard_kinds`); the hard-failure functions are kept there for speed. -/
 def faultRead (bytes : Bytes) (fa : Option Nat) (kind : IoKind := .injected) : String :=
-  match openArchive fa (Dev.ofBytesK bytes kind) with
+  let intr := kind == .interrupted
+  let openM : M Archive := if intr then openArchiveI else openArchive
+  let readM (a : Archive) (i : Nat) : M (PwResult (Nat × Out Bytes)) :=
+    if intr then byIndexReadB storedExt a i none else byIndexRead storedExt a i none
+  match openM fa (Dev.ofBytesK bytes kind) with
   | (.err e, d) => s!"open={(Out.className e).replace " " ":"} ncalls={d.calls}"
   | (.panic _, _) => "panic"
   | (.ok a, d) =>
@@ -28,7 +38,7 @@ def faultRead (bytes : Bytes) (fa : Option Nat) (kind : IoKind := .injected) : S
       match n with
       | 0 => acc ++ s!" ncalls={d.calls}"
       | n + 1 =>
-        match (byIndexRead storedExt a i none) fa d with
+        match readM a i fa d with
         | (.err e, d') => go (i + 1) n d' (acc ++ s!" {i}={(Out.className e).replace " " ":"}")
         | (.panic _, _) => "panic"
         | (.ok .invalidPassword, d') => go (i + 1) n d' (acc ++ s!" {i}=err:passwordrequired")
@@ -98,8 +108,9 @@ def opFault (op : String) (a : Args) : Option String := do
   let kind : IoKind ← (match a.get? "kind" with
     | none => some .injected
     | some n => parseKind n)
-  -- `Interrupted` inside std's retry loops is described only by the streaming ops (`M.retried`); see the harness
-  if (op == "fault.read" || op == "fault.write") && kind == .interrupted && fa.isSome then some "oracle-only" else
+  -- `Interrupted` inside std's retry loops: the streaming ops (`M.retried`) and the seekable reader (`MI`) describe it;
+  -- the writer does not yet
+  if op == "fault.write" && kind == .interrupted && fa.isSome then some "oracle-only" else
   match op with
   | "fault.enc" | "fault.writec" | "fault.writeo" | "fault.rawcopy" | "fault.streamo" | "fault.visito" => some "oracle-only"   -- cipher / codec layers are external: judged by the oracle alone
   | "fault.stream" =>
